@@ -1,20 +1,25 @@
 #!/bin/sh
-# For every seeded change under /verif/seeded/<id>/: apply patch.diff to /repo, run all 20 quick checks, undo.
+# For every seeded change under /verif/seeded/<id>/: apply patch.diff to /repo, run all 20 quick checks (in parallel), undo.
 # Prints which checks report a VIOLATION (exit 1) for it.  Usage: tools/seeds.sh [id ...]
 cd "$(dirname "$0")/.." || exit 2
 ids="$@"; [ -z "$ids" ] && ids=$(ls seeded)
+T=$(mktemp -d /tmp/indilint-seeds.XXXXXX)
 for id in $ids; do
   P=seeded/$id/patch.diff
   [ -f "$P" ] || continue
-  git -C /repo diff --quiet || { echo "refusing: /repo has uncommitted changes"; exit 2; }
+  git -C /repo diff --quiet || { echo "refusing: /repo has uncommitted changes"; rm -rf $T; exit 2; }
   git -C /repo apply "$PWD/$P" || { echo "$id: patch does not apply"; continue; }
+  for i in 01 02 03 04 05 06 07 08 09 10 11 12 13 14 15 16 17 18 19 20; do
+    ( INDILINT_EVIDENCE_DIR=$T/ev-$i INDILINT_NO_SELFTEST=1 ./check C$i >/dev/null 2>&1; echo $? > $T/rc-$i ) &
+  done
+  wait
+  git -C /repo checkout -- .
   hit=""; inc=""
   for i in 01 02 03 04 05 06 07 08 09 10 11 12 13 14 15 16 17 18 19 20; do
-    INDILINT_EVIDENCE_DIR=/tmp/indilint-seed-ev ./check C$i >/dev/null 2>&1; rc=$?
-    [ $rc -eq 1 ] && hit="$hit C$i"
-    [ $rc -eq 2 ] && inc="$inc C$i"
+    rc=$(cat $T/rc-$i)
+    [ "$rc" = 1 ] && hit="$hit C$i"
+    [ "$rc" = 2 ] && inc="$inc C$i"
   done
-  git -C /repo checkout -- .
   echo "$id: VIOLATION from:$hit ; analysis-incomplete:${inc:- none}"
 done
-rm -rf /tmp/indilint-seed-ev
+rm -rf $T
